@@ -289,11 +289,15 @@ impl<'a> Parser<'a> {
             "null" => Ok(Value::Null),
             "true" => Ok(Value::Bool(true)),
             "false" => Ok(Value::Bool(false)),
-            number => Ok(Value::Number(
-                number
-                    .parse()
-                    .map_err(|_| self.traceback(ParseError::InvalidToken))?,
-            )),
+            number => {
+                quiet_assert(is_number(number), self.traceback(ParseError::InvalidToken))?;
+
+                Ok(Value::Number(
+                    number
+                        .parse()
+                        .map_err(|_| self.traceback(ParseError::InvalidToken))?,
+                ))
+            }
         }
     }
 
@@ -338,6 +342,28 @@ fn quiet_assert(condition: bool, error: TracebackError) -> Result<(), TracebackE
 }
 
 /// Check whether a character is whitespace according to the specification.
+/// Checks that the string is a number according to RFC 8259, since `f64::from_str` is more lenient
+///   (it accepts for example `NaN`, `inf`, `+1`, `01`, `.5` and `1.`).
+fn is_number(s: &str) -> bool {
+    let s = s.strip_prefix('-').unwrap_or(s);
+    let (mantissa, exponent) = match s.find(|c| c == 'e' || c == 'E') {
+        Some(i) => (&s[..i], Some(&s[i + 1..])),
+        None => (s, None),
+    };
+    let (int, frac) = match mantissa.find('.') {
+        Some(i) => (&mantissa[..i], Some(&mantissa[i + 1..])),
+        None => (mantissa, None),
+    };
+    let digits = |s: &str| !s.is_empty() && s.bytes().all(|b| b.is_ascii_digit());
+
+    digits(int)
+        && (int == "0" || !int.starts_with('0'))
+        && frac.map_or(true, digits)
+        && exponent.map_or(true, |e| {
+            digits(e.strip_prefix(|c| c == '+' || c == '-').unwrap_or(e))
+        })
+}
+
 fn is_whitespace(c: impl Borrow<char>) -> bool {
     matches!(c.borrow(), ' ' | '\t' | '\n' | '\r')
 }
